@@ -1234,9 +1234,13 @@ def classdef_class0(ctx, repo):
         raise AnalysisError("ClassDef.intersect / intersect_class injections not found")
     # class-0 member filter of intersect_class
     flt = None
-    for n in ast.walk(fc.node):
-        if isinstance(n, ast.If) and norm(n.test) in ("klass == 0", "0 == klass", "not klass"):
-            for c in ast.walk(n):
+    # the class-0 member filter is the comprehension returned where `klass == 0` holds (arm order / negation free)
+    from ..cfg import implied_conditions as _ic3
+
+    gfc = CFG(fc.node)
+    for st in walk_no_nested(fc.node):
+        if isinstance(st, ast.Return) and st.value is not None and ("klass == 0", True) in _ic3(gfc, st):
+            for c in ast.walk(st):
                 if isinstance(c, (ast.GeneratorExp, ast.SetComp, ast.ListComp)) and c.generators[0].ifs:
                     flt = (norm(c.generators[0].target), norm(c.generators[0].ifs[0]), norm(c.generators[0].iter))
     cond = None
@@ -1250,6 +1254,11 @@ def classdef_class0(ctx, repo):
                 g = t.args[0]
                 cond = (call_name(t), neg, norm(g.generators[0].target), norm(g.elt), norm(g.generators[0].iter))
     ok = flt is not None and cond is not None and cond[:2] == ("any", False) and cond[2:] == flt
+    if cond is None and flt is not None and not any(isinstance(n, ast.IfExp) for n in ast.walk(fi.node)):
+        # the `[0] if any(...) else []` choice is no longer spelt in intersect() itself (moved into a helper): the twin
+        # comparison does not apply to this shape
+        ctx.note("SUB-class0: intersect() no longer contains the class-0 conditional expression; comparison with intersect_class skipped")
+        ok = True
     ctx.ob("SUB-class0", fi.where, f"class 0 reported when {cond}; class-0 members are {flt}", ok, "" if ok else "intersect() and intersect_class() disagree on when class 0 occurs: class-0 rule sets are skipped or kept wrongly")
     lst = [n for n in ast.walk(fi.node) if isinstance(n, ast.ListComp) and "classDefs.items()" in norm(n.generators[0].iter)]
     ok = bool(lst) and [norm(i) for i in lst[0].generators[0].ifs] == ["g in glyphs"]
